@@ -149,7 +149,8 @@ class CountingBloomFilter(BloomFilter):
                 self._bloom[k] = UINT32_T_MAX
                 vals[i] = UINT32_T_MAX
             else:
-                self._bloom[k] += num_els  # This keeps the original methodology
+                # clamp each store: positions of one key may coincide, so the cell may have grown since vals was built
+                self._bloom[k] = min(self._bloom[k] + num_els, UINT32_T_MAX)
         self.elements_added = min(self.elements_added + num_els, UINT64_T_MAX)
         return min(vals)
 
